@@ -20,7 +20,7 @@ import pyfacts
 import values
 
 ID = 'C19'
-LEAN_MODULES = ['Yaql.Props.C19', 'Yaql.Props.C19Regex', 'Yaql.Props.C19Gen']
+LEAN_MODULES = ['Yaql.Props.C19', 'Yaql.Props.C19Regex', 'Yaql.Props.C19Exec', 'Yaql.Props.C19Gen']
 REQUIRED_THEOREMS = [
     'Yaql.Props.C19.split_join', 'Yaql.Props.C19.join_split', 'Yaql.Props.C19.substring_spec',
     'Yaql.Props.C19.indexOf_spec', 'Yaql.Props.C19.lastIndexOf_spec', 'Yaql.Props.C19.trim_idem',
@@ -28,6 +28,7 @@ REQUIRED_THEOREMS = [
     'Yaql.Props.C19.replace_dict_sequential', 'Yaql.Props.C19.starts_ends',
     'Yaql.Props.C19Regex.searchAll_disjoint_ordered', 'Yaql.Props.C19Regex.split_matches_reassemble',
     'Yaql.Props.C19Regex.replace_splice', 'Yaql.Props.C19Regex.publish_binds',
+    'Yaql.Props.C19Exec.execMatcher_sane',
 ]
 TRUSTED = ["CPython's str methods and `re` (differentially tested against the Lean model, not verified)",
            'rendering of generated regex ASTs / replacement templates / selectors to text (harness)',
@@ -162,6 +163,10 @@ CLASSES = [('digits', S.digits), ('hexdigits', S.hexdigits), ('asciiLowercase', 
            ('lowercase', S.ascii_lowercase), ('uppercase', S.ascii_uppercase), ('whitespace', S.whitespace)]
 
 
+ESCAPE_KEEPS = S.ascii_letters + S.digits + '_'
+REGEX_META = '.^$*+?{}[]\\|()'
+
+
 def codes(x):
     return [ord(c) for c in x]
 
@@ -243,7 +248,8 @@ def ref_strings(f, a):
     if f == '>=':
         return codes(a[0]) >= codes(a[1])
     if f == 'escapeRegex':
-        return re.escape(a[0])
+        # docstring: "all the characters except ASCII letters, numbers, and '_' escaped"
+        return ''.join(c if c in ESCAPE_KEEPS else '\\' + c for c in a[0])
     raise KeyError(f)
 
 
@@ -543,9 +549,41 @@ def arg_refs(n, first=0):
     return ['$.a%d' % i for i in range(first, n)]
 
 
+def doc_keywords(fn):
+    """the arguments after the receiver as the docstring's `:signature:` spells them:
+    [keyword name | None for a positional one]"""
+    m = re.search(r':signature:(.*?)(?=\n\s*:(?:arg|receiverArg|returnType))', fn.__doc__ or '', re.S)
+    sig = ' '.join(m.group(1).split())
+    inner = sig[sig.index('(') + 1:sig.rindex(')')]
+    return [(part.split('=>')[0].strip() if '=>' in part else None) for part in inner.split(',') if part.strip()]
+
+
+_KW = {}
+
+
+def documented_keywords():
+    """function (harness name) -> keyword spelling per argument, read from the docstrings of the yaql under
+    test: the documented signature is part of the documented meaning"""
+    if not _KW:
+        from yaql.standard_library import regex as yregex
+        from yaql.standard_library import strings as ystrings
+        for name, fn in [('split', ystrings.split), ('rightSplit', ystrings.right_split), ('trim', ystrings.trim),
+                         ('trimLeft', ystrings.trim_left), ('trimRight', ystrings.trim_right), ('norm', ystrings.norm),
+                         ('isEmpty', ystrings.is_empty), ('replace', ystrings.replace),
+                         ('replaceDict', ystrings.replace_with_dict), ('substring', ystrings.substring),
+                         ('indexOf', ystrings.index_of), ('lastIndexOf', ystrings.last_index_of),
+                         ('re.split', yregex.split), ('re.replace', yregex.replace), ('re.replaceBy', yregex.replace_by),
+                         ('regex', yregex.regex)]:
+            try:
+                _KW[name] = doc_keywords(fn)
+            except Exception:          # an unreadable docstring: positional spelling only
+                _KW[name] = []
+    return _KW
+
+
 def expr_strings(f, a, form):
     """(text, data) of the yaql expression for function f on positional args a.  `form` selects among
-    equivalent spellings (method / function / keyword arguments)."""
+    equivalent spellings (method / function / keyword arguments as the docstring names them)."""
     data = {'a%d' % i: v for i, v in enumerate(a)}
     n = len(a)
     if f in ('+', '*', 'in', '<', '>', '<=', '>='):
@@ -559,12 +597,9 @@ def expr_strings(f, a, form):
             return 'characters(%s)' % ', '.join(arg_refs(n)), data
         return 'characters(%s)' % ', '.join('%s => true' % k for (k, _), on in zip(CLASSES, a) if on), {}
     name = {'join_': 'join', 'replaceDict': 'replace'}.get(f, f)
-    kw = {'split': ['separator', 'maxSplits'], 'rightSplit': ['separator', 'maxSplits'],
-          'trim': ['chars'], 'trimLeft': ['chars'], 'trimRight': ['chars'], 'norm': ['chars'],
-          'isEmpty': ['trim', 'chars'], 'replace': [None, None, 'count'], 'replaceDict': [None, 'count'],
-          'substring': [None, 'length'], 'indexOf': [None, 'start'], 'lastIndexOf': [None, 'start']}.get(f)
+    kw = documented_keywords().get(f)
     refs = arg_refs(n, 1)
-    if kw and form % 3 == 1 and not (f in ('indexOf', 'lastIndexOf') and n == 4):
+    if kw and form % 3 == 1 and len(kw) >= len(refs) and not (f in ('indexOf', 'lastIndexOf') and n == 4):
         refs = [(r if kw[i] is None else '%s => %s' % (kw[i], r)) for i, r in enumerate(refs)]
     if f in ('len', 'norm', 'isEmpty') and form % 3 == 2:        # extension methods: function call syntax
         return '%s(%s)' % (name, ', '.join(['$.a0'] + refs)), data
@@ -574,10 +609,16 @@ def expr_strings(f, a, form):
 def expr_regex(c):
     data = dict(p=c['ptext'], s=c['s'], i=c['i'], m=c['m'], d=c['d'], n=c.get('count', 0))
     form = c.get('form', 0)
-    if form % 2:
+    KW = documented_keywords()
+    fk = [k for k in KW.get('regex', []) if k] or ['ignoreCase', 'multiLine', 'dotAll']
+    if form % 2 or len(fk) != 3:
         rx = 'regex($.p, $.i, $.m, $.d)'
     else:
-        rx = 'regex($.p, ignoreCase => $.i, multiLine => $.m, dotAll => $.d)'
+        rx = 'regex($.p, %s => $.i, %s => $.m, %s => $.d)' % tuple(fk)
+
+    def count_kw(fn, dflt):
+        ks = [k for k in KW.get(fn, []) if k and k != 'selector']
+        return ks[-1] if ks else dflt
     f, sel = c['f'], c.get('sel')
     st = sel_text(sel) if sel is not None else None
     if f == 're.matches':
@@ -592,14 +633,14 @@ def expr_regex(c):
         name = f[3:]
         return ('%s.%s($.s)' % (rx, name)) if st is None else ('%s.%s($.s, %s)' % (rx, name, st)), data
     if f == 're.split':
-        cnt = ['', ', $.n', ', maxSplit => $.n'][form // 2 % 3 if c['count'] == 0 else 1 + form // 2 % 2]
+        cnt = ['', ', $.n', ', %s => $.n' % count_kw('re.split', 'maxSplit')][form // 2 % 3 if c['count'] == 0 else 1 + form // 2 % 2]
         return ['%s.split($.s%s)' % (rx, cnt), '$.s.split(%s%s)' % (rx, cnt)][form // 6 % 2], data
     if f == 're.replace':
         data['r'] = template_text(c['repl'])
-        cnt = ['', ', $.n', ', count => $.n'][form // 2 % 3 if c['count'] == 0 else 1 + form // 2 % 2]
+        cnt = ['', ', $.n', ', %s => $.n' % count_kw('re.replace', 'count')][form // 2 % 3 if c['count'] == 0 else 1 + form // 2 % 2]
         return ['%s.replace($.s, $.r%s)' % (rx, cnt), '$.s.replace(%s, $.r%s)' % (rx, cnt)][form // 6 % 2], data
     if f == 're.replaceBy':
-        cnt = ['', ', $.n', ', count => $.n'][form // 2 % 3 if c['count'] == 0 else 1 + form // 2 % 2]
+        cnt = ['', ', $.n', ', %s => $.n' % count_kw('re.replaceBy', 'count')][form // 2 % 3 if c['count'] == 0 else 1 + form // 2 % 2]
         return ['%s.replaceBy($.s, %s%s)' % (rx, st, cnt), '$.s.replaceBy(%s, %s%s)' % (rx, st, cnt)][form // 6 % 2], data
     raise KeyError(f)
 
@@ -694,16 +735,44 @@ def same(a, b):
     return a[0] == b[0] and (values.same(a[1], b[1]) if a[0] == 'v' else a[1] == b[1])
 
 
-def judge(c, drv):
+DOC_KEYS = ('escapeRegex-doc-stale', 'isEmpty-doc-keyword')
+
+
+def failure_key(c, real):
+    """signature of an oracle failure (matched against known_findings.json).  Two narrow signatures name
+    places where the docstring and the code disagree; anything else is keyed by the function."""
+    f = c['f']
+    if f == 'escapeRegex' and real[0] == 'v' and 's' in (real[1] or {}):
+        out, s = values.dec(real[1]), c['a'][0]
+        # the code escapes exactly a set of special characters: every regex metacharacter, no ASCII
+        # letter / digit / '_'; only the claim "everything else is escaped" fails
+        i, ok, plain_ = 0, True, []
+        while i < len(out):
+            if out[i] == '\\' and i + 1 < len(out):
+                ok = ok and out[i + 1] not in ESCAPE_KEEPS
+                plain_.append(out[i + 1])
+                i += 2
+            else:
+                ok = ok and out[i] not in REGEX_META
+                plain_.append(out[i])
+                i += 1
+        if ok and ''.join(plain_) == s:
+            return 'escapeRegex-doc-stale'
+    if f == 'isEmpty' and real == ['e', 'NoMatching'] and 'trimSpaces =>' in case_expr(c)[0]:
+        return 'isEmpty-doc-keyword'
+    return f
+
+
+def judge(c, drv, want=None):
     """(kind, message) or None for one case, all three parties run here (used for shrinking / replay)"""
     real, orc = run_real(c), run_oracle(c)
     mod = None
     if drv is not None:
         mod = model_outcome(drv.ask(dict(p='C19', cases=[case_for_model(c)]))['r'][0], c['f'] == 'characters')
-    if not same(real, orc):
-        return 'oracle', describe(c, real, orc, mod)
+    if not same(real, orc) and want != 'mismatch':
+        return 'oracle', describe(c, real, orc, mod), failure_key(c, real)
     if mod is not None and not same(real, mod):
-        return 'mismatch', describe(c, real, orc, mod)
+        return 'mismatch', describe(c, real, orc, mod), c['f']
     return None
 
 
@@ -721,8 +790,8 @@ def describe(c, real, orc, mod):
         text, json.dumps(data, ensure_ascii=True, default=repr), show(real), show(orc), show(mod))
 
 
-def shrink(c, drv, kind):
-    """shorten the string arguments while the same kind of failure persists"""
+def shrink(c, drv, kind, key):
+    """shorten the string arguments while the same failure (kind and key) persists"""
     def variants(c):
         if c['f'].startswith('re.'):
             for i in range(len(c['s'])):
@@ -738,8 +807,8 @@ def shrink(c, drv, kind):
     while progress:
         progress = False
         for v in variants(c):
-            j = judge(v, drv)
-            if j and j[0] == kind:
+            j = judge(v, drv, kind)
+            if j and j[0] == kind and j[2] == key:
                 c, progress = v, True
                 break
     return c
@@ -989,16 +1058,18 @@ def run(env, res):
                  sample=dict(expr=text, data=data, result=show(real)) if k % 2999 == 0 else None)
         if mod is not None:
             res.traces += 1
-        kind = None
+        fails = []
         if not same(real, orc):
-            kind = 'oracle'
-        elif mod is not None and not same(real, mod):
-            kind = 'mismatch'
-        if kind and (kind, f) not in reported and len(reported) < 8:
-            reported.add((kind, f))
-            small = shrink(c, drv, kind)
-            j = judge(small, drv) or (kind, describe(c, real, orc, mod))
-            res.fail(kind, f, j[1], small)
+            fails.append(('oracle', failure_key(c, real)))
+        if mod is not None and not same(real, mod) and (same(real, orc) or fails[0][1] == 'escapeRegex-doc-stale'):
+            fails.append(('mismatch', f))
+        for kind, key in fails:
+            if (kind, key) in reported or len(reported) >= 10:
+                continue
+            reported.add((kind, key))
+            small = shrink(c, drv, kind, key)
+            j = judge(small, drv, kind)
+            res.fail(kind, key, j[1] if j else describe(c, real, orc, mod), small)
     res.extra['function_histogram'] = hist
     res.extra['outcome_histogram'] = outcomes
     res.extra['regex_features'] = feats
